@@ -1,5 +1,7 @@
 """Per-property configuration of ./check."""
 
+HOOK_COMMITS = ["93c5b5f", "7b65bb1", "563f8ff", "154b503"]
+
 COMMON_ASSUME = [
     "the hand-written Lean model is faithful to /repo only as far as this run's correspondence sampled it",
     "cfg(windows) code and the `crlf` feature are out of scope",
@@ -11,8 +13,32 @@ def _canon_nontrivial(case, impl):
     it = impl.split()
     return len(it) >= 2 and it[0] == "ok" and toks[1] != it[1]
 
+def _depfile_nontrivial(case, impl):
+    # non-trivial: parsed successfully with at least one prerequisite, or a diagnostic past offset 0
+    it = impl.split()
+    if it[:1] == ["ok"]:
+        return len(it) > 3 and it[1] != "0"
+    return it[:1] == ["err"] and it[1] != "0"
+
 PROPS = {
+    "C15": {
+        "claim": "Lean 4 theorems about an executable model of depfile.rs + read_depfile: the recorded prerequisites are exactly the listed ones (in order for distinct targets; none lost for repeated targets, finding F11 repaired). The byte-level parser model is tied to the real parser on all short strings over the depfile alphabet, structured depfiles under random formatting and raw bytes; the round-trip monitor runs in Lean on the real parser's output.",
+        "props": ["C15"],
+        "modes": ["depfile"],
+        "level": "proof",
+        "nontrivial": {"depfile": _depfile_nontrivial},
+        "rule": "every string over {a,' ',':','\\','\n'} up to length 6 (quick) / 8 (thorough); structured depfiles "
+                "(0-5 entries, 0-6 prerequisites, names with colons, backslashes inside, UTF-8; random blanks, "
+                "backslash-newline continuations, blank lines, optional final newline, repeated targets) with the "
+                "expected entries carried in the case for the monitor; raw byte strings incl. CR, TAB, NUL. "
+                "Non-trivial = at least one prerequisite parsed or a diagnostic past offset 0.",
+        "assumptions": COMMON_ASSUME + [
+            "round trip parse∘render is so far validated by correspondence + monitor on structured depfiles, proved only at the entry-recording level (flatten theorems); see DESIGN.md",
+        ],
+        "trusted_base": ["depfile.rs modelled completely (skip_spaces, read_path, parse) over the scanner.rs model; task.rs::read_depfile flattening"],
+    },
     "C13": {
+        "claim": "Lean 4 theorems about an executable model of canonicalize_path (never lengthens; always succeeds within the 60-component capacity; only the two source panics are possible abnormal outcomes), model tied to the real function by differential execution on every string up to length 7/10 over {a,b,.,/,\\} plus random long UTF-8 paths; the property's monitors (length, idempotence, normal form, same denotation) are Lean predicates evaluated on the implementation's outputs.",
         "props": ["C13"],
         "modes": ["canon"],
         "level": "proof",
